@@ -213,6 +213,12 @@ func podWebhook(ctx context.Context, req *webhook.AdmissionRequest, client clien
 				networks.PodNetworks[i].SecurityGroupIDs = cfg.GetSecurityGroups()
 			}
 		}
+		// defaults are only available for eth0: an entry that is still incomplete can never be set up, refuse it here
+		for i := range networks.PodNetworks {
+			if len(networks.PodNetworks[i].VSwitchOptions) == 0 || len(networks.PodNetworks[i].SecurityGroupIDs) == 0 {
+				return admission.Denied(fmt.Sprintf("vSwitchOptions and securityGroupIDs are required for interface %s", networks.PodNetworks[i].Interface))
+			}
+		}
 
 	}
 	pnaBytes, err := json.Marshal(networks)
